@@ -33,8 +33,15 @@ def mc_jobs(ctx):
     if not q:
         jobs.append(("session", {"DeclSet": "{6, 8}", "Ctx": '{"c1", "c3"}', "Name": '{"f"}', "MaxSteps": 5,
                                  "Acts": acts("define", "del", "push", "clear", "close", "reload", "unload", "fire")}, inv, prop, None))
+    # the next action before quiescence (a stopped function / manager starts nothing more)
+    jobs.append(("rush", {"DeclSet": "{4, 8}", "Ctx": '{"c1", "c3"}', "Name": '{"f"}', "Rush": "TRUE", "MaxGen": 3,
+                          "SubSet": '{"dm", "legacy"}', "MaxSteps": 3 if q else 4,
+                          "Acts": acts("define", "del", "reload", "close", "unload", "fire", "set", "call")}, inv, prop, None))
     # deviation flags: the invariant each one violates
     jobs += [
+        ("flag:legacy-stop-before-first-run-leaks", {"FlagSets": '{{"legacy-stop-before-first-run-leaks"}}', "SubSet": '{"legacy"}',
+                                                     "DeclSet": "{4}", "Ctx": '{"c3"}', "Rush": "TRUE", "MaxSteps": 2,
+                                                     "Acts": acts("define", "del")}, inv, prop, {"TablesEqualUnionOfActive"}),
         ("flag:notify-del-returns-early", {"FlagSets": '{{"notify-del-returns-early"}}', "DeclSet": "{9}", "MaxSteps": 3,
                                            "Acts": acts("define", "del", "unload")}, inv, prop, {"TablesEqualUnionOfActive", "AfterUnloadBaseline"}),
         ("flag:service-handler-not-repointed", {"FlagSets": '{{"service-handler-not-repointed"}}', "DeclSet": "{1}", "MaxSteps": 3,
@@ -54,7 +61,7 @@ def mc_jobs(ctx):
 
 def main(ctx):
     sizes = {"sim": ctx.pick(6, 120), "depth": ctx.pick(8, 14), "rnd": ctx.pick(10, 150), "steps": ctx.pick(18, 40),
-             "simsplit": ctx.pick(3, 6)}
+             "simsplit": ctx.pick(3, 6), "race": ctx.pick(6, 80)}
     L.main_common(ctx, "C09", mc_jobs(ctx),
                   {"MaxGen": 8, "DeclSet": "{1, 4, 6, 7, 8, 9, 11, 12, 13}" if ctx.quick else "AllDecls",
                    "DeclSet_masked": "{1, 4, 7, 8, 10, 13, 16}" if ctx.quick else "MaskedDecls"}, L.DECL_POOL, sizes)
